@@ -19,7 +19,26 @@ import (
 
 func init() {
 	Drivers["byz"] = driveByz
-	Gens["C05"] = func(tier string, seed uint64, run int) *Scenario { return cellScenario("C05", tier, seed, run) }
+	Gens["C05"] = func(tier string, seed uint64, run int) *Scenario {
+		// wrong-secret, under-sized-parameter and duplicated-parameter parties (real parties running on
+		// corrupted inputs) are part of the property's quantifier: a fixed share of the runs
+		inputs := []string{"bob-wc/wrong-share", "bob-wc/others-share", "params/ntilde-2047-bits", "params/paillier-2047-bits", "dln/h1-equals-h2", "dln/h2-unrelated-square", "fac/256-bit-factor"}
+		every := 9
+		if tier == "thorough" {
+			every = 40
+		}
+		if run%every == every-1 {
+			want := inputs[(run/every)%len(inputs)]
+			for i, a := range c11Catalogue() {
+				if a.ID == want {
+					sc := genC11(tier, seed, i)
+					sc.Check, sc.Run = "C05", run
+					return sc
+				}
+			}
+		}
+		return cellScenario("C05", tier, seed, run-run/every)
+	}
 	Gens["C06"] = func(tier string, seed uint64, run int) *Scenario {
 		// field-level matrix cells and wire-level junk runs share the check
 		if tier == "quick" {
